@@ -11,7 +11,9 @@
    Proved for all such programs and schedules: per-KEY mutual exclusion; the
    key's current mutex is locked while the key is held exclusively; no panic;
    and the key-level Try*/Lock/RLock theorems of Props/C09.v (fail or wait while
-   the key is held incompatibly, succeed when it is free). After a
+   the key is held incompatibly; succeed when it is free AND UNCONTENDED: the
+   explicit hypothesis [quiet c t k], nobody else at a mutex-operation step of a
+   call on k, needed for the real sync.Mutex / sync.RWMutex). After a
    ClearKey the next LockKey creates a new mutex for the key (Example), so the
    "one mutex per key" theorem of Props/C09.v deliberately excludes ClearKey.
    Statements only; proofs are [exact] of theorems of SyncMap/ClearKey.v (which
@@ -89,7 +91,7 @@ Proof. exact ck_try_step_enabled. Qed.
 Print Assumptions C09_try_step_enabled_with_clearkey.
 
 (* the "succeeds when free AND UNCONTENDED" halves, for fresh mutexes ([fresh_values]) and with
-   [uncontended c t k] (nobody else stands at a blocking Lock / RLock step of k: needed for the real
+   [quiet c t k] (nobody else stands at a mutex-operation step of a call on k: needed for the real
    sync.Mutex / sync.RWMutex, see Props/C09.v); note that the key may have had NO mutex when the call began
    (it was cleared): then its LoadOrStore has just created one *)
 Theorem C09_trylock_succeeds_when_key_free_with_clearkey : forall progs sched,
@@ -97,7 +99,7 @@ Theorem C09_trylock_succeeds_when_key_free_with_clearkey : forall progs sched,
   let c := run_schedule (init_config 1 progs) sched in
   forall t ch c' f,
   top_frame c t = Some f -> (f_pc f = KM_TryLock \/ f_pc f = KRW_TryLock) ->
-  (forall t2 b, (t2, key_of (f_call f), b) ∉ holders c) -> uncontended c t (key_of (f_call f)) ->
+  (forall t2 b, (t2, key_of (f_call f), b) ∉ holders c) -> quiet c t (key_of (f_call f)) ->
   step c t ch = Some c' ->
   completed (c_hist c') = completed (c_hist c) ++ [(t, f_call f, RBool true)] /\ holds_excl c' t (key_of (f_call f)).
 Proof. exact ck_trylock_succeeds_when_key_free. Qed.
@@ -108,7 +110,7 @@ Theorem C09_tryrlock_succeeds_when_key_not_write_held_with_clearkey : forall pro
   let c := run_schedule (init_config 1 progs) sched in
   forall t ch c' f,
   top_frame c t = Some f -> f_pc f = KRW_TryRLock ->
-  (forall t2, ~ holds_excl c t2 (key_of (f_call f))) -> uncontended c t (key_of (f_call f)) ->
+  (forall t2, ~ holds_excl c t2 (key_of (f_call f))) -> quiet c t (key_of (f_call f)) ->
   step c t ch = Some c' ->
   completed (c_hist c') = completed (c_hist c) ++ [(t, f_call f, RBool true)] /\ holds_shared c' t (key_of (f_call f)).
 Proof. exact ck_tryrlock_succeeds_when_key_not_write_held. Qed.
@@ -119,7 +121,7 @@ Theorem C09_lock_succeeds_when_key_free_with_clearkey : forall progs sched,
   let c := run_schedule (init_config 1 progs) sched in
   forall t ch f,
   top_frame c t = Some f -> (f_pc f = KM_Lock \/ f_pc f = KRW_Lock) ->
-  (forall t2 b, (t2, key_of (f_call f), b) ∉ holders c) -> uncontended c t (key_of (f_call f)) ->
+  (forall t2 b, (t2, key_of (f_call f), b) ∉ holders c) -> quiet c t (key_of (f_call f)) ->
   exists c', step c t ch = Some c' /\ completed (c_hist c') = completed (c_hist c) ++ [(t, f_call f, RUnit)] /\
              holds_excl c' t (key_of (f_call f)).
 Proof. exact ck_lock_succeeds_when_key_free. Qed.
@@ -130,7 +132,7 @@ Theorem C09_rlock_succeeds_when_key_not_write_held_with_clearkey : forall progs 
   let c := run_schedule (init_config 1 progs) sched in
   forall t ch f,
   top_frame c t = Some f -> f_pc f = KRW_RLock ->
-  (forall t2, ~ holds_excl c t2 (key_of (f_call f))) -> uncontended c t (key_of (f_call f)) ->
+  (forall t2, ~ holds_excl c t2 (key_of (f_call f))) -> quiet c t (key_of (f_call f)) ->
   exists c', step c t ch = Some c' /\ completed (c_hist c') = completed (c_hist c) ++ [(t, f_call f, RUnit)] /\
              holds_shared c' t (key_of (f_call f)).
 Proof. exact ck_rlock_succeeds_when_key_not_write_held. Qed.
@@ -153,12 +155,33 @@ Example C09_example_clearkey :
     ([None; None], [(1%nat, 8%Z, true)], [(2001%Z, UFree); (1001%Z, UFree); (3001%Z, ULocked)], (Some 2001%Z, Some 3001%Z)).
 Proof. vm_compute. repeat split. Qed.
 
-(* Non-vacuity of the key-level theorems with [uncontended]: in the run above, after the ClearKey(7), thread 1
-   stands at the Lock step of its LockKey(7); key 7 is free (its new mutex 2001 was just created) and
-   uncontended; the step is enabled and thread 1 then holds key 7. *)
+(* Non-vacuity of the key-level theorems with [quiet]: in the run above, after the ClearKey(7), thread 1
+   stands at the Lock step of its LockKey(7); key 7 is free (its new mutex 2001 was just created) and quiet;
+   the step is enabled and thread 1 then holds key 7. The schedule, including that step, respects the
+   contract ([disc2_fromb]), and the programs' mutexes are fresh ([ck_ex_progs_fresh]). *)
 Example C09_example_clearkey_uncontended :
+  disc2_fromb (init_config 1 ck_ex_progs) (ck_ex_sched 4 ++ [(1%nat, 0%Z); (1%nat, 0%Z)]) = true /\
+  fresh_values ck_ex_progs /\
   let c := run_schedule (init_config 1 ck_ex_progs) (ck_ex_sched 4 ++ [(1%nat, 0%Z)]) in
   map thread_label (c_threads c) = [None; Some KM_Lock] /\ holders c = [(1%nat, 8%Z, true)] /\
-  uncontendedb c 1 7 = true /\
+  quietb c 1 7 = true /\
   option_map holders (step c 1 0) = Some [(1%nat, 8%Z, true); (1%nat, 7%Z, true)].
+Proof. split; [vm_compute; reflexivity|]. split; [exact ck_ex_progs_fresh|]. vm_compute. repeat split. Qed.
+
+(* Non-vacuity of the fails / waits theorems with ClearKey ([ckw_ex_progs]: thread 0 runs LockKey(7);
+   UnlockKey(7); ClearKey(7), the others one call each on key 7). Thread 0 holds key 7 exclusively; thread 1
+   stands at its TryRLock step, thread 2 at RLock, thread 3 at TryLock, thread 4 at Lock: both Try* steps
+   complete with false, both blocking steps are disabled. The schedule respects the contract (nobody is
+   inside ClearKey yet). *)
+Example C09_example_clearkey_fails_waits :
+  disc2_fromb (init_config 1 ckw_ex_progs) (ckw_ex_sched ++ [(1%nat, 0%Z); (3%nat, 0%Z)]) = true /\
+  let c := run_schedule (init_config 1 ckw_ex_progs) ckw_ex_sched in
+  map thread_label (c_threads c) = [Some LOS_read1; Some KRW_TryRLock; Some KRW_RLock; Some KRW_TryLock; Some KRW_Lock] /\
+  holders c = [(0%nat, 7%Z, true)] /\
+  option_map (fun c' => (list.last (completed (c_hist c')), holders c')) (step c 1 0) =
+    Some (Some (1%nat, CLoadOrStore 0 7 2001 PTryRLock, RBool false), [(0%nat, 7%Z, true)]) /\
+  step c 2 0 = None /\
+  option_map (fun c' => (list.last (completed (c_hist c')), holders c')) (step c 3 0) =
+    Some (Some (3%nat, CLoadOrStore 0 7 4001 PWTryLock, RBool false), [(0%nat, 7%Z, true)]) /\
+  step c 4 0 = None.
 Proof. vm_compute. repeat split. Qed.
